@@ -56,6 +56,8 @@ FilesInc == [
   flg   |-> [dir |-> "include", lines |-> << SFlags(<<"i">>), E("a") >>]
 ]
 
+FilesIncAll == FilesInc @@ ("v8.1" :> [dir |-> "include", lines |-> << E("ab"), E("b") >>])
+
 FilesExc == [
   f1    |-> [dir |-> "include", lines |-> << E("aab"), E("ba"), SComment("##! c"), E("aab"), SBlank(""), E("bb"), E("a") >>],
   f2    |-> [dir |-> "include", lines |-> << SDefine("v", <<W("b")>>), SEntry(<<W("a"), PRef("v")>>), E("aab"), E("b") >>],
@@ -64,6 +66,7 @@ FilesExc == [
   x3    |-> [dir |-> "exclude", lines |-> << >>],
   x4    |-> [dir |-> "exclude", lines |-> << E("ab"), E("ba"), E("bb"), E("a"), E("b"), E("aab") >>],
   xv    |-> [dir |-> "exclude", lines |-> << SEntry(<<W("a"), PRef("v")>>) >>],
+  xc    |-> [dir |-> "exclude", lines |-> << SComment("##! nothing to exclude here"), SBlank(""), SDefine("u", <<W("b")>>) >>],
   \* a word list whose order shows in the output (no common prefixes), with a repeated entry
   f3    |-> [dir |-> "include", lines |-> << E("cu"), E("wg"), E("cu"), E("nm"), E("py") >>],
   \* include files whose parser output contains directive lines (block markers)
@@ -75,7 +78,7 @@ FilesDef == [
   dinc  |-> [dir |-> "include", lines |-> << SEntry(<<W("b"), PRef("p")>>), SEntry(<<PRef("q")>>) >>]
 ]
 
-Files == CASE Family = "inc" -> FilesInc [] Family = "exc" -> FilesExc [] Family = "def" -> FilesDef
+Files == CASE Family = "inc" -> FilesIncAll [] Family = "exc" -> FilesExc [] Family = "def" -> FilesDef
 
 FileLines == [f \in DOMAIN Files |-> Files[f].lines]
 
@@ -89,7 +92,9 @@ VocInc == << E("a"), E("b"), SEntry(<<PRef("v")>>), SEntry(<<PRef("w"), W("a")>>
              SDefine("v", <<W("bb")>>), SDefine("w", <<ClsAB>>) >>
           \o << IncOf("plain"), (IncOf("plain") @@ [ext |-> TRUE]), IncOf("noisy"), IncOf("pfx"), IncOf("sfx"),
                 IncOf("both"), IncOf("defs"), IncOf("nest"), IncOf("nest2"), IncOf("blk"), IncOf("xdir"),
-                IncOf("flg"), IncOf("missing") >>
+                IncOf("flg"), IncOf("missing"), IncOf("v8.1"),
+                \* the same file once with a suffix replacement and once plain (in either order)
+                SInclude("plain", << <<"a", "b">> >>), SInclude("nest", << <<"b", "\"\"">> >>) >>
           \o Blocks \o << LStore("x"), LLoad("x") >>
 
 Pairs1 == << <<"b", "a">> >>
@@ -108,6 +113,8 @@ VocExc == << E("b"),
              SInclude("f1", Pairs1), SInclude("f1", Pairs2), SInclude("f1", Pairs3), SInclude("f1", Pairs4),
              SInclude("f1", Pairs5), SInclude("f2", Pairs3), SInclude("f2", <<>>),
              \* keys that are also the ending of a directive line: only entries may be rewritten
+             \* an exclude file without entries listed BEFORE one with entries
+             SInclExc("f1", <<"x3", "x2">>, <<>>), SInclExc("f3", <<"xc", "x1", "x3">>, <<>>), SInclExc("f2", <<"xc", "xv">>, <<>>),
              SInclExc("f3", <<"x3">>, <<>>), SInclExc("f3", <<"x1">>, << <<"y", "z">> >>),
              SInclude("fp", << <<">", "b">> >>), SInclude("fp", << <<"e", "a">>, <<"<", "b">> >>),
              SInclude("fblk", << <<"e", "b">>, <<">", "a">> >>), SInclExc("fblk", <<"x3">>, << <<"<", "a">>, <<"a", "b">> >>) >>
@@ -128,7 +135,7 @@ Voc  == [i \in 1..Len(Voc0) |-> WithInd(Voc0[i])]
 (* Growing a well-formed main program.                                     *)
 (***************************************************************************)
 TopKind == meta.kinds[Len(meta.kinds)]
-WordFiles == {"plain", "noisy", "nest", "xdir", "f1", "f2", "f3"}
+WordFiles == {"plain", "noisy", "nest", "xdir", "f1", "f2", "f3", "v8.1"}
 
 CanAdd(l) ==
     /\ Len(prog) < MaxLines
